@@ -486,6 +486,9 @@ def rust_literals(fns):
         if isinstance(node, dict):
             if node.get("k") == "const" and isinstance(node.get("val"), int):
                 out.add(node["val"])
+            if node.get("k") == "const" and isinstance(node.get("indirect"), dict) and str(node.get("ty", "")).startswith("[u8; ") \
+                    and len(node["indirect"].get("hex", "")) <= 32:
+                out.update(bytes.fromhex(node["indirect"]["hex"]))   # a small named byte array counts as its bytes
             for v in node.values():
                 scan(v)
         elif isinstance(node, list):
